@@ -114,7 +114,11 @@ Section H.
     | _, _ => wd
     end.
 
-  Definition step (wd : world) (o : op) : world := apply_outcome wd o (run_op wd o).
+  (* an operation on a position id that does not exist is rejected *)
+  Definition op_valid (ps : list position) (o : op) : bool :=
+    match o with OpFees _ => true | _ => Nat.ltb (op_index o) (length ps) end.
+  Definition step (wd : world) (o : op) : world :=
+    if op_valid (snd wd) o then apply_outcome wd o (run_op wd o) else wd.
   Definition run (wd : world) (ops : list op) : world := fold_left step ops wd.
 End H.
 
